@@ -21,6 +21,11 @@ var c15Corpus = []string{
 	"//evil.example/%2F..", "\\\\\\evil.example", "/\x0b/evil.example", "/\x00/evil.example",
 	// dot segments: harmless to a browser as they stand, but http.Redirect path.Clean()s the target
 	"/./\\evil.example/", "/x/../\\evil.example/x", "/.//evil.example/", "/x/..//evil.example", "/./\\\\evil.example", "/.\\/evil.example", "/..//evil.example", "/a/./../\\evil.example",
+	// absolute and scheme-relative references that name the site's OWN host: a layer that "reduces them to
+	// their path" must not end up with a path that is itself off-site
+	"https://site.test//evil.example/x", "http://site.test//evil.example", "https://SITE.test//evil.example/", "https://site.test/\\evil.example/x", "//site.test//evil.example/x",
+	"https://site.test:443//evil.example", "https://site.test/.//evil.example/", "https://site.test/x/..//evil.example", "https://site.test///evil.example", "https://site.test/\t/evil.example",
+	"https://site.test/ok/../\\evil.example", "https://site.test", "https://site.test/after/login",
 	// percent-encoded spellings: harmless as they stand (same-site paths), off-site if a layer decodes them
 	"/%2Fevil.example/x", "/%2f%2fevil.example", "/%5Cevil.example/x", "/%09/evil.example", "/%0A/evil.example", "%2F%2Fevil.example", "/%252Fevil.example",
 	// benign same-site targets that may be followed
